@@ -27,6 +27,7 @@ func main() {
 	tier := flag.String("tier", "", "quick|thorough (default: $VERIF_TIER or quick)")
 	verif := flag.String("verif", "", "verif dir (default: dir above the binary, or /verif)")
 	list := flag.Bool("list", false, "list implemented properties")
+	wb := flag.String("write-baseline", "", "write the symbol table of the current tree to this file and exit")
 	flag.Parse()
 	if *list {
 		var ids []string
@@ -36,6 +37,19 @@ func main() {
 		sort.Strings(ids)
 		for _, k := range ids {
 			fmt.Println(k)
+		}
+		return
+	}
+	if *wb != "" {
+		writeBaselineMode = true
+		w, err := Load("quick", false, nil)
+		if err != nil {
+			fmt.Println("LOAD FAILURE:", err)
+			os.Exit(1)
+		}
+		if err := writeBaseline(w.Pkgs, *wb); err != nil {
+			fmt.Println(err)
+			os.Exit(1)
 		}
 		return
 	}
